@@ -12,6 +12,24 @@ from sigma.exceptions import SigmaSecurityError
 PYSIGMA_ALLOW_VARS_EXECUTION_ENV = "PYSIGMA_ALLOW_VARS_EXECUTION"
 
 
+class TemplateSandbox(SandboxedEnvironment):
+    """
+    Sandbox for pipeline templates. Templates read the rule and the pipeline they are given, but they
+    must not construct pySigma objects: an object constructed from template text (e.g.
+    ``pipeline.items[0].transformation.from_dict({..., "allow_external_sources": true})``) would carry
+    opt-ins chosen by the pipeline file itself. Calling a pySigma class or one of its classmethods is
+    therefore refused like any other unsafe call.
+    """
+
+    def is_safe_callable(self, obj: Any) -> bool:
+        target = obj if isinstance(obj, type) else getattr(obj, "__self__", None)
+        if isinstance(target, type) and any(
+            cls.__module__.split(".")[0] == "sigma" for cls in target.__mro__
+        ):
+            return False
+        return super().is_safe_callable(obj)
+
+
 @dataclass
 class TemplateBase:
     """Base class for Jinja template postprocessors and finalizers.
@@ -47,12 +65,10 @@ class TemplateBase:
 
     def __post_init__(self) -> None:
         if self.path is None:
-            env = SandboxedEnvironment(autoescape=self.autoescape)
+            env: SandboxedEnvironment = TemplateSandbox(autoescape=self.autoescape)
             self.j2template = env.from_string(self.template)
         else:
-            env = SandboxedEnvironment(
-                autoescape=self.autoescape, loader=FileSystemLoader(self.path)
-            )
+            env = TemplateSandbox(autoescape=self.autoescape, loader=FileSystemLoader(self.path))
             self.j2template = env.get_template(self.template)
 
         # Load custom variables/functions from Python file if provided
